@@ -533,7 +533,16 @@ pub fn generate(prop: &str, seed: u64) -> W1Scn {
         tie: Tie::Fifo,
     };
     let alph: Vec<Vec<u32>> = ticks.iter().map(|t| make_alphabet(&mut r, *t, alpha_kind)).collect();
-    let len = if r.chance(0.8) { r.range(3, 40) } else { r.range(41, p.max_len as u64) } as usize;
+    // C07, rarely: a long history of mostly passive orders, so that the snapshot file passes 1 MiB (buffered / chunked
+    // readers and writers) before it is written, reloaded and driven on
+    let big_file = prop == "C07" && r.chance(0.0008);
+    let len = if big_file {
+        r.range(3000, 6500)
+    } else if r.chance(0.8) {
+        r.range(3, 40)
+    } else {
+        r.range(41, p.max_len as u64)
+    } as usize;
     let mut gcfg = cfg.clone();
     gcfg.monitors = 0;
     let mut gex = Exec::new(&gcfg);
@@ -545,6 +554,9 @@ pub fn generate(prop: &str, seed: u64) -> W1Scn {
         if g.r.chance(0.25) {
             w[k] = 0;
         }
+    }
+    if big_file {
+        w = [60, 6, 1, 1, 2, 2, 0, 22, 0, 0, 0, 0];
     }
     while g.ops.len() < len {
         match g.r.weighted(&w) {
@@ -587,6 +599,15 @@ pub fn generate(prop: &str, seed: u64) -> W1Scn {
             }
         }
     } else if p.drain {
+        if big_file {
+            // the large snapshot: through a file, pretty or compact, crash-restart, then a continuation that trades
+            let how = if g.r.chance(0.8) { 3 } else { 2 };
+            let lv = g.ex.cfg.levels;
+            g.push(Op::Snapshot { how, into_levels: lv, keep: false, truncate: false });
+            g.taker();
+            let a = g.pick_asset();
+            g.push(Op::CreatePlace { a, bid: true, vol: 1, trader: 300, price: None });
+        }
         g.ops.push(Op::Drain);
     }
     let ops = std::mem::take(&mut g.ops);
